@@ -53,7 +53,7 @@ ANCHORS = ['pfhedge.stochastic.brownian:generate_brownian',
            'pfhedge.stochastic.engine:RandnSobolBoxMuller.__call__',
            'pfhedge.nn.functional:box_muller']
 DECIDING = ["pathwise.brownian", "pathwise.geometric", "pathwise.jump_zero_intensity", "law.moments", "random.antithetic", "random.sobol"]
-REQUIRED_BRANCHES = ["history.warmup_with_other_arguments", "cir.psi<=1.5", "cir.psi>1.5", "cir.psi_near_switch", "kou.p_up!=0.5", "via.instrument", "via.generator", "stage2"]
+REQUIRED_BRANCHES = ["history.warmup_with_other_arguments", "cir.psi<=1.5", "cir.psi>1.5", "cir.psi_near_switch", "kou.p_up!=0.5", "via.instrument", "via.generator"]
 
 Z = 4.5
 
